@@ -234,6 +234,25 @@ func guard(f func()) (msg string) {
 	return
 }
 
+// nearTop: the values whose every CRT digit y_i = x * (A/a_i)^-1 mod a_i is within a few units of a_i - 1, before and
+// after the centring shift by A/2: the floating-point estimate of sum y_i / a_i reaches its largest value, len(src)
+func nearTop(src []uint64, A *big.Int) (out []*big.Int) {
+	half := new(big.Int).Rsh(A, 1)
+	for _, deltas := range [][]uint64{{0, 0, 0, 0, 0, 0}, {1, 0, 2, 0, 1, 3}, {5, 7, 0, 1, 2, 9}, {40, 3, 17, 0, 60, 1}} {
+		f := new(big.Int)
+		for i, a := range src {
+			ai := new(big.Int).SetUint64(a)
+			y := new(big.Int).SetUint64(a - 1 - deltas[i%len(deltas)])
+			f.Add(f, y.Mul(y, new(big.Int).Div(A, ai)))
+		}
+		f.Mod(f, A)
+		out = append(out, f)
+		c := new(big.Int).Sub(f, half)
+		out = append(out, c.Mod(c, A))
+	}
+	return
+}
+
 func (d *driver) basis(rq, rp *ring.Ring, lq, lp int, toy bool, count int) {
 	n := rq.N()
 	be0 := ring.NewBasisExtender(rq, rp)
@@ -265,6 +284,7 @@ func (d *driver) basis(rq, rp *ring.Ring, lq, lp int, toy bool, count int) {
 			}
 		} else {
 			vals = d.boundary(A, new(big.Int).SetUint64(src[len(src)-1]), count)
+			vals = append(vals, nearTop(src, A)...)
 		}
 		for _, xs := range chunk(vals, n) {
 			pin := polyFromInts(rs.AtLevel(ls), xs)
